@@ -80,6 +80,15 @@ func (e *legacyEval) fieldPath(v ssa.Value, env *strEnv, depth int) (string, typ
 			if root == ssa.Value(e.recv) {
 				return name, x.Type(), true
 			}
+			// a helper's parameter bound to a sub-struct of the receiver
+			for cur := env; cur != nil; cur = cur.up {
+				if b, has := cur.bind[p]; has {
+					if prefix, _, ok := e.fieldPath(b, cur.up, depth+1); ok && prefix != "" {
+						return prefix + "." + name, x.Type(), true
+					}
+					break
+				}
+			}
 			return "", nil, false
 		}
 		// nested: the base is itself a loaded field (pointer to a sub-struct)
@@ -302,6 +311,8 @@ func legacyWritesSSA(c *Ctx, p *packages.Package, fn *ssa.Function) *tbLegacyWri
 	seen := map[ssa.Value]bool{}
 	var elems []ssa.Value // appended string values
 	elemSite := map[ssa.Value]ssa.Instruction{}
+	elemEnv := map[ssa.Value]*strEnv{}
+	var env *strEnv // bindings of the helper whose body is being walked
 	var walk func(v ssa.Value, depth int)
 	walk = func(v ssa.Value, depth int) {
 		v = throughCell(strip(v))
@@ -332,8 +343,26 @@ func legacyWritesSSA(c *Ctx, p *packages.Package, fn *ssa.Function) *tbLegacyWri
 							elems = append(elems, el)
 							if el != nil {
 								elemSite[el] = x
+								elemEnv[el] = env
 							}
 						}
+						return
+					}
+				}
+				// append(args, helper(...)...): the list a repository helper builds the same way, its parameters bound to
+				// this call's arguments
+				if hc, ok := throughCell(strip(x.Call.Args[1])).(*ssa.Call); ok {
+					if h := w.helperOf(hc); h != nil && h.Signature.Results().Len() == 1 && len(hc.Call.Args) == len(h.Params) && len(w.callSites(h)) == 1 {
+						bind := map[*ssa.Parameter]ssa.Value{}
+						for i, p := range h.Params {
+							bind[p] = hc.Call.Args[i]
+						}
+						old := env
+						env = &strEnv{bind: bind, up: old}
+						for _, r := range liveReturns(h) {
+							walk(r.Results[0], depth+1)
+						}
+						env = old
 						return
 					}
 				}
@@ -357,6 +386,7 @@ func legacyWritesSSA(c *Ctx, p *packages.Package, fn *ssa.Function) *tbLegacyWri
 					case !ok && el != nil:
 						// a computed element of the literal is an argument like the appended ones
 						elems = append(elems, el)
+						elemEnv[el] = env
 					default:
 						out.problems = append(out.problems, "element of the initial argument list at "+w.Pos(x.Pos())+" is not a named constant")
 					}
@@ -371,7 +401,7 @@ func legacyWritesSSA(c *Ctx, p *packages.Package, fn *ssa.Function) *tbLegacyWri
 	walk(joined, 0)
 	for _, el := range elems {
 		where := w.Pos(el.Pos())
-		ps, ok := ev.template(el, nil, 0)
+		ps, ok := ev.template(el, elemEnv[el], 0)
 		if !ok {
 			out.problems = append(out.problems, "the argument appended at "+where+" is not a key=value string built from constants and fields of the receiver: "+w.Short(el))
 			continue
@@ -414,9 +444,9 @@ func legacyWritesSSA(c *Ctx, p *packages.Package, fn *ssa.Function) *tbLegacyWri
 		}
 		out.nParts[key] = len(fields)
 		// the conditions the append stands under mention the token's own fields (or their parents) only
-		if site := elemSite[el]; site != nil && site.Parent() == fn {
-			for l := range w.factsOf(fn).Primary(site.Block()) {
-				for _, m := range ev.fieldMentions(l.V, 0) {
+		if site := elemSite[el]; site != nil && (site.Parent() == fn || elemEnv[el] != nil) {
+			for l := range w.factsOf(site.Parent()).Primary(site.Block()) {
+				for _, m := range ev.fieldMentionsEnv(l.V, elemEnv[el], 0) {
 					own := false
 					for _, f := range fields {
 						if m == f.field || strings.HasPrefix(f.field, m+".") {
@@ -755,29 +785,33 @@ func legacyReadsSSA(c *Ctx, p *packages.Package, fn *ssa.Function, attrs *types.
 
 // fieldMentions: the receiver field paths that the value v is computed from (operands of comparisons, len, ...).
 func (e *legacyEval) fieldMentions(v ssa.Value, depth int) []string {
+	return e.fieldMentionsEnv(v, nil, depth)
+}
+
+func (e *legacyEval) fieldMentionsEnv(v ssa.Value, env *strEnv, depth int) []string {
 	if v == nil || depth > 5 {
 		return nil
 	}
-	if p, _, ok := e.fieldPath(v, nil, 0); ok && p != "" {
+	if p, _, ok := e.fieldPath(v, env, 0); ok && p != "" {
 		return []string{p}
 	}
 	var out []string
 	switch x := strip(v).(type) {
 	case *ssa.BinOp:
-		out = append(out, e.fieldMentions(x.X, depth+1)...)
-		out = append(out, e.fieldMentions(x.Y, depth+1)...)
+		out = append(out, e.fieldMentionsEnv(x.X, env, depth+1)...)
+		out = append(out, e.fieldMentionsEnv(x.Y, env, depth+1)...)
 	case *ssa.UnOp:
-		out = append(out, e.fieldMentions(x.X, depth+1)...)
+		out = append(out, e.fieldMentionsEnv(x.X, env, depth+1)...)
 	case *ssa.Convert:
-		out = append(out, e.fieldMentions(x.X, depth+1)...)
+		out = append(out, e.fieldMentionsEnv(x.X, env, depth+1)...)
 	case *ssa.Call:
 		for _, a := range callArgs(x) {
-			out = append(out, e.fieldMentions(a, depth+1)...)
+			out = append(out, e.fieldMentionsEnv(a, env, depth+1)...)
 		}
 	case *ssa.Extract:
-		out = append(out, e.fieldMentions(x.Tuple, depth+1)...)
+		out = append(out, e.fieldMentionsEnv(x.Tuple, env, depth+1)...)
 	case *ssa.FieldAddr:
-		out = append(out, e.fieldMentions(x.X, depth+1)...)
+		out = append(out, e.fieldMentionsEnv(x.X, env, depth+1)...)
 	}
 	return out
 }
